@@ -39,8 +39,8 @@ type c12 struct{}
 
 func init() { register(&c12{}) }
 
-func (*c12) ID() string                      { return "C12" }
-func (*c12) Level() string                   { return "fault_enumeration" }
+func (*c12) ID() string                     { return "C12" }
+func (*c12) Level() string                  { return "fault_enumeration" }
 func (*c12) Decode(raw []byte) (any, error) { return decodeInto[C12Scenario](raw) }
 
 var errSink = errors.New("injected sink failure")
@@ -132,12 +132,12 @@ func (p *c12) Gen(seed uint64, i int, tier string) (any, bool) {
 }
 
 type renderResult struct {
-	n       int64
-	err     error
-	panic   any
-	stack   string
-	sink    *faultSink
-	built   *Built
+	n     int64
+	err   error
+	panic any
+	stack string
+	sink  *faultSink
+	built *Built
 }
 
 func renderWith(t *testing.T, seed uint64, spec MsgSpec, mode string, k int) renderResult {
